@@ -1,0 +1,10 @@
+//go:build !verif
+
+package cluster
+
+import "time"
+
+// No-op counterparts of the verification hooks, see verif_yield_on.go.
+func verifYield(string) {}
+
+func verifTimer(string, *time.Timer) {}
